@@ -1688,21 +1688,21 @@ def cases(tier, seed):
     yield {"kind": "directed_mboot"}
     yield {"kind": "directed_sdp"}
     for tr in ("uart", "usb"):
-        for k in range(5000 if th else 150):
+        for k in range(5000 if th else 500):
             yield {"kind": "mboot_hist", "transport": tr, "k": k}
-        for k in range(120 if th else 3):
+        for k in range(120 if th else 8):
             yield {"kind": "mboot_big", "transport": tr, "k": k}
-        for k in range(600 if th else 12):
+        for k in range(600 if th else 40):
             yield {"kind": "mboot_status", "transport": tr, "k": k, "budget": 60 if th else 40}
-        for k in range(1000 if th else 28):
+        for k in range(1000 if th else 90):
             yield {"kind": "mboot_fault", "transport": tr, "k": k, "budget": 250 if th else 160}
         for k in range(16 if th else 1):
             yield {"kind": "mboot_fault_exhaustive", "transport": tr, "k": k}
-        for k in range(3000 if th else 90):
+        for k in range(3000 if th else 300):
             yield {"kind": "sdp_hist", "transport": tr, "k": k}
-        for k in range(200 if th else 6):
+        for k in range(200 if th else 16):
             yield {"kind": "sdp_status", "transport": tr, "k": k}
-        for k in range(900 if th else 24):
+        for k in range(900 if th else 80):
             yield {"kind": "sdp_fault", "transport": tr, "k": k, "budget": 150 if th else 80}
     for k in range(4 if th else 1):
         yield {"kind": "sdps", "k": k}
